@@ -41,8 +41,8 @@ COMMANDS = ['help', 'list', 'filter', 'breakpoint', 'matcher', 'connection', 're
 
 def plan(tier, seed):
     if tier == 'quick':
-        return ([{'mode': 'log', 'n': 60} for _ in range(5)] + [{'mode': 'matcher', 'n': 2500} for _ in range(5)] +
-                [{'mode': 'command', 'n': 1500} for _ in range(4)] + [{'mode': 'process', 'n': 8} for _ in range(4)])
+        return ([{'mode': 'log', 'n': 200} for _ in range(5)] + [{'mode': 'matcher', 'n': 8000} for _ in range(5)] +
+                [{'mode': 'command', 'n': 5000} for _ in range(4)] + [{'mode': 'process', 'n': 12} for _ in range(4)])
     return ([{'mode': 'log', 'n': 2500} for _ in range(20)] + [{'mode': 'matcher', 'n': 80000} for _ in range(20)] +
             [{'mode': 'command', 'n': 40000} for _ in range(16)] + [{'mode': 'process', 'n': 120} for _ in range(8)])
 
@@ -282,8 +282,8 @@ def run_command(ctx, spec):
     for n in range(spec['n']):
         state, s, names = rng.choice(sessions)
         line = gen_command(rng, names)
-        if '\n' in line or '\r' in line:
-            line = line.replace('\n', ' ').replace('\r', ' ')
+        # the quantifier is over PRINTABLE command lines (coloured input is C17's subject): drop control characters
+        line = ''.join(ch if (ch.isprintable() or ch == '\t') else ' ' for ch in line)
         ctx.ev()
         ctx.sig(h64([state, line]))
         n0 = len(s.events)
